@@ -245,21 +245,17 @@ theorem iq_outer_carries_no_payload :
     omemoIqOuterSetters = ["setId", "setType", "setLang", "setFrom", "setTo", "setOmemoElement"]
     ∧ iqPayloadInEnvelope = true := by decide
 
-/-- **Agreement of today's extracted table with the specification, row by row, in both directions** (payload ⇒
-sensitive guard; routing / hint / id ⇒ public guard; explicit fallback ⇒ a guard reaching the public part): every row
-agrees except the unknown extensions, which the spec says are payload and the code writes in every mode. -/
-theorem table_agrees_with_spec_except : specDisagreements table.rows = ["extensions"] := by decide
+/-- **Today's extracted table agrees with the specification, row by row, in both directions** (payload ⇒ sensitive
+guard; routing / hint / id ⇒ public guard; explicit fallback ⇒ a guard reaching the public part).  (Before /repo
+commit e2ea074 this list was `["extensions"]`: unknown extensions were written in every mode.) -/
+theorem table_agrees_with_spec : specDisagreements table.rows = [] := by decide
 
 /-- The spec knows the wire identity of every element the code can write (no row is payload merely by default). -/
 theorem table_spec_covers_every_row : specUnknown table.rows = [] := by decide
 
-/-- The write-side predicate fails today on exactly one row: `extensions` (class payload, written under `both`).
-Moving any payload writer out of the sensitive block, or adding a writer the spec does not know to the public block
-or the tail, adds its row to this list. -/
-theorem table_offending_write : offendingWrite table = ["extensions"] := by decide
-
-/-- What the partition theorems need holds for the whole table. -/
-theorem table_wf_split : WFsplit table := by decide
+/-- The write-side predicate holds for every row.  Moving any payload writer out of the sensitive block, or adding a
+writer the spec does not know to the public block or the tail, puts its row into this list. -/
+theorem table_offending_write : offendingWrite table = [] := by decide
 
 /-- Recognisers pairwise distinguishable on everything the writers produce, names unique, chain = rows. -/
 theorem table_wf_shape : WFshape table := by decide
@@ -268,70 +264,48 @@ theorem table_wf_shape : WFshape table := by decide
 `["jingleMessageInitiationElement", "callInviteElement"]`.) -/
 theorem table_offending_parse : offendingParse table = [] := by decide
 
-/-- `toXml(SceSensitive)` writes one thing the envelope content lacks: the unknown extensions.  (`extendedAddresses`
-left this list with /repo commit 7d68095.) -/
-theorem table_offending_toXml : offendingToXml table = ["extensions"] := by decide
+/-- `toXml(SceSensitive)` writes nothing the envelope content lacks.  (`extendedAddresses` left this list with /repo
+commit 7d68095, `extensions` with e2ea074.) -/
+theorem table_offending_toXml : offendingToXml table = [] := by decide
 
-/-- Without the `extensions` row the table is fully well-formed. -/
-theorem table_wf_without_defects : WFtable (table.without ["extensions"]) := by decide
+/-- **The whole generated table is well-formed**: it agrees with the spec on the write side, every row is recognised
+under the guard it is written under, recognisers are pairwise distinguishable. -/
+theorem table_wf : WFtable table := by decide
 
-/-- `public_has_no_sensitive`, partial — today's code, all messages: every element of the public part is non-payload
-OR an application-supplied unknown extension.  Missing for the full statement: `WFwrite table`, false because of the
-`extensions` row (`C17_defect_extensions_public`). -/
-theorem today_public_has_no_sensitive_partial (m : Msg) :
-    ∀ e ∈ publicPart table m, ∃ r ∈ table.rows, e ∈ m r.name ∧ (r.cls ≠ .payload ∨ r.name = "extensions") := by
-  intro e he
-  obtain ⟨r, hr, hmem, hc⟩ := public_has_no_sensitive_except table m e he
-  refine ⟨r, hr, hmem, ?_⟩
-  rcases hc with hc | hc
-  · left; exact hc
-  · right; rw [table_offending_write] at hc; simpa using hc
+/-- **No payload in the public part — today's code, all messages.** -/
+theorem today_public_has_no_sensitive (m : Msg) :
+    ∀ e ∈ publicPart table m, ∃ r ∈ table.rows, e ∈ m r.name ∧ r.cls ≠ .payload :=
+  public_has_no_sensitive table table_wf.1 m
 
-/-- Partition — today's code, all messages (full: the unknown extensions are in exactly one part; the wrong one). -/
+/-- **…stated on the wire against the spec alone — today's code, all valid messages**: every element of the public part
+has a (name, namespace) the spec allows outside the envelope, or is the designated explicit fallback text. -/
+theorem today_public_elements_allowed_by_spec (m : Msg) (hv : Msg.Valid table m) :
+    ∀ e ∈ publicPart table m, classOfWire e.tag e.ns ≠ .payload ∨ e ∈ m fallbackTextField :=
+  public_elements_allowed_by_spec table table_wf.1 m hv
+
+/-- **Partition — today's code, all messages.** -/
 theorem today_parts_partition (m : Msg) :
     (writeMode table m .all ++ fallbackCopies table m).Perm (publicPart table m ++ sensitivePart table m) :=
-  parts_partition table table_wf_split m
+  parts_partition table (wfSplit_of_wfWrite table_wf.1) m
 
-/-- `split_parse_recovers`, partial — today's code, all valid messages: every KNOWN field is recovered.  Missing for
-the full statement: the unknown extensions (`C17_defect_extensions_lost`). -/
-theorem today_split_parse_recovers_partial (m : Msg) (hv : Msg.Valid table m) (r : Row) (hr : r ∈ table.rows)
-    (hca : r.catchAll = false) (hnb : r.writeGuard ≠ .both ∨ r.wrapper = true) :
-    (recover table m).msg r.name = m r.name :=
-  split_parse_recovers_row table table_wf_split table_wf_shape m hv r hr
-    (wfParse_of_not_offending hr (by rw [table_offending_parse]; simp)) hca hnb
+/-- **Recovery — today's code, all valid messages, every field** (rows written in both parts, i.e. the explicit
+fallback markers, aside): the receive path gives back each known field and exactly the unknown extensions that were
+set, and the public part alone yields no unknown extension. -/
+theorem today_split_parse_recovers (m : Msg) (hv : Msg.Valid table m) :
+    (∀ r ∈ table.rows, r.catchAll = false → (r.writeGuard ≠ .both ∨ r.wrapper = true) →
+        (recover table m).msg r.name = m r.name)
+    ∧ (recover table m).unknown = catchAllValue table m
+    ∧ (parseMode table (publicPart table m) .pub true Msg.empty).unknown = [] :=
+  split_parse_recovers table table_wf m hv
 
-/-- witness: a message whose only content is one application-supplied unknown extension -/
-def extMsg : Msg := Msg.empty.set "extensions" [{ tag := "app-ext", ns := "verif:app", val := "custom payload" }]
-
-theorem extMsg_valid : Msg.Valid table extMsg := by decide
-
-/-- **Defect (today's code).** `public_has_no_sensitive` is false for the generated table: an unknown extension —
-payload by the spec — is written into the public part. -/
-theorem C17_defect_extensions_public :
-    ¬ (∀ m, Msg.Valid table m → ∀ e ∈ publicPart table m, ∃ r ∈ table.rows, e ∈ m r.name ∧ r.cls ≠ .payload) := by
-  intro h
-  have := h extMsg extMsg_valid { tag := "app-ext", ns := "verif:app", val := "custom payload" } (by decide)
-  revert this
-  decide
-
-/-- **Defect (today's code).** `split_parse_recovers` is false for the generated table: the unknown extension is not
-in the envelope content, and the receive path replaces the unknown extensions by those of the content — so it is lost. -/
-theorem C17_defect_extensions_lost :
-    ¬ (∀ m, Msg.Valid table m → (recover table m).unknown = catchAllValue table m) := by
-  intro h
-  have := h extMsg extMsg_valid
-  revert this
-  decide
-
-/-- …what happens instead, concretely: in the clear on the wire, absent from the ciphertext, gone after decryption,
-and present in both `toXml` parts. -/
-theorem C17_defect_extensions_witness :
-    publicPart table extMsg = extMsg "extensions"
-    ∧ sensitivePart table extMsg = []
-    ∧ (recover table extMsg).unknown = []
-    ∧ writeMode table extMsg .sens = extMsg "extensions" := by decide
+/-- `toXml(SceSensitive)` writes exactly the envelope content — today's code, all messages. -/
+theorem today_toXml_sensitive_is_content (m : Msg) : writeMode table m .sens = writeExt table m .sens :=
+  toXml_sensitive_is_content table table_offending_toXml m
 
 /-! ## Non-vacuity and regression witnesses -/
+
+/-- former counterexample (fixed by e2ea074): only one application-supplied unknown extension set -/
+def extMsg : Msg := Msg.empty.set "extensions" [{ tag := "app-ext", ns := "verif:app", val := "custom payload" }]
 
 /-- former counterexample (fixed by 968e727): only a Jingle-Message-Initiation `<propose/>` set -/
 def jmiMsg : Msg := Msg.empty.set "jingleMessageInitiationElement"
@@ -345,9 +319,11 @@ def callInviteMsg : Msg := Msg.empty.set "callInviteElement"
 def addrMsg : Msg := Msg.empty.set "extendedAddresses"
   [{ tag := "addresses", ns := "http://jabber.org/protocol/address", val := "addr-1" }]
 
-/-- The three former counterexamples are valid messages and behave as the property demands. -/
+/-- The four former counterexamples are valid messages and now behave as the property demands. -/
 example :
-    Msg.Valid table jmiMsg ∧ publicPart table jmiMsg = []
+    Msg.Valid table extMsg ∧ publicPart table extMsg = []
+    ∧ sensitivePart table extMsg = extMsg "extensions" ∧ (recover table extMsg).unknown = extMsg "extensions"
+    ∧ Msg.Valid table jmiMsg ∧ publicPart table jmiMsg = []
     ∧ (recover table jmiMsg).msg "jingleMessageInitiationElement" = jmiMsg "jingleMessageInitiationElement"
     ∧ (recover table jmiMsg).unknown = []
     ∧ Msg.Valid table callInviteMsg
@@ -364,40 +340,30 @@ def sampleMsg : Msg :=
       "extendedAddresses" [{ tag := "addresses", ns := "http://jabber.org/protocol/address", val := "a" }]).set
       "e2eeFallbackBody" [{ tag := "body", ns := "", val := "fb" }]
 
-/-- the table as the proposed fix (fixes/C17-unknown-extensions-sensitive.diff) makes the translator emit it: the
-`extensions` row sensitive-guarded and part of `serializeExtensions` -/
-def fixedTable : Table :=
-  let fix := fun r : Row => if r.catchAll then { r with writeGuard := .sens, wrapper := false } else r
-  { rows := table.rows.map fix, parse := table.parse.map fix }
-
-/-- The hypotheses of the generic theorems are satisfiable by a real, complete table and a non-trivial valid message
-that also carries an unknown extension; the parts are what one expects and everything comes back. -/
+/-- The hypotheses of the generic theorems and of the `today_*` theorems are met by a non-trivial valid message that also
+carries an unknown extension; the parts are what one expects and everything comes back. -/
 example :
-    WFtable fixedTable ∧ specDisagreements fixedTable.rows = []
-    ∧ Msg.Valid fixedTable (sampleMsg.set "extensions" (extMsg "extensions"))
-    ∧ (publicPart fixedTable (sampleMsg.set "extensions" (extMsg "extensions"))).map (·.val) = ["fb", "h1", "h2", "f", "a"]
-    ∧ (sensitivePart fixedTable (sampleMsg.set "extensions" (extMsg "extensions"))).map (·.val) = ["b", "f", "custom payload"]
-    ∧ (recover fixedTable (sampleMsg.set "extensions" (extMsg "extensions"))).unknown = extMsg "extensions" := by decide
-
-/-- The partial theorems about today's table are not vacuous either. -/
-example :
-    Msg.Valid table sampleMsg
-    ∧ (publicPart table sampleMsg).map (·.val) = ["fb", "h1", "h2", "f", "a"]
-    ∧ (sensitivePart table sampleMsg).map (·.val) = ["b", "f"]
-    ∧ (writeMode table sampleMsg .all).map (·.val) = ["h1", "h2", "b", "f", "a"]
+    Msg.Valid table (sampleMsg.set "extensions" (extMsg "extensions"))
+    ∧ (publicPart table (sampleMsg.set "extensions" (extMsg "extensions"))).map (·.val) = ["fb", "h1", "h2", "f", "a"]
+    ∧ (sensitivePart table (sampleMsg.set "extensions" (extMsg "extensions"))).map (·.val) = ["b", "f", "custom payload"]
+    ∧ (writeMode table (sampleMsg.set "extensions" (extMsg "extensions")) .all).map (·.val)
+        = ["h1", "h2", "b", "f", "a", "custom payload"]
     ∧ (fallbackCopies table sampleMsg).map (·.val) = ["fb", "f"]
+    ∧ (recover table (sampleMsg.set "extensions" (extMsg "extensions"))).unknown = extMsg "extensions"
     ∧ (recover table sampleMsg).msg "body" = sampleMsg "body"
     ∧ (recover table sampleMsg).msg "hints" = sampleMsg "hints" := by decide
 
 /-- The predicates can fail, and name the row: the pre-968e727 guard of the JMI recogniser, the pre-7d68095 guard of
-the addresses writer, a payload row moved to the unguarded tail, and a hint moved into the ciphertext (spec
-disagreement in the other direction) are each rejected. -/
+the addresses writer, a payload row moved to the unguarded tail, a hint moved into the ciphertext (spec
+disagreement in the other direction) and the pre-e2ea074 placement of the unknown extensions are each rejected. -/
 example :
     offendingParse { rows := [{ r_jingleMessageInitiationElement with parseGuard := .pub }], parse := [] }
       = ["jingleMessageInitiationElement"]
     ∧ offendingToXml { rows := [{ r_extendedAddresses with writeGuard := .both }], parse := [] } = ["extendedAddresses"]
     ∧ offendingWrite { rows := [{ r_body with writeGuard := .both }], parse := [] } = ["body"]
-    ∧ specDisagreements [{ r_hints with writeGuard := .sens }] = ["hints"] := by decide
+    ∧ specDisagreements [{ r_hints with writeGuard := .sens }] = ["hints"]
+    ∧ offendingWrite { rows := [{ r_extensions with writeGuard := .both, wrapper := true }], parse := [] } = ["extensions"]
+    := by decide
 
 /-- The classification really comes from the wire identity: the same row under another namespace changes class. -/
 example :
